@@ -485,14 +485,33 @@ func (serviceCore *ServiceCore) FilterDatasets(
 	result := make([]server.DatasetName, 0)
 
 	for _, dataset := range datasets {
-		for _, ac := range acl {
-			if serviceCore.CheckGranted(ac, "/datasets/"+dataset.Name, "read") {
-				result = append(result, dataset)
-			}
+		if serviceCore.IsGranted(acl, "/datasets/"+dataset.Name, "read") {
+			result = append(result, dataset)
 		}
 	}
 
 	return result, nil
+}
+
+// IsGranted decides a request against a complete access control list: at least one entry must
+// grant the resource for the action, and no entry that applies to it may be a deny entry.
+func (serviceCore *ServiceCore) IsGranted(acl []*AccessControl, resource string, action string) bool {
+	granted := false
+	for _, ac := range acl {
+		if ac == nil {
+			continue
+		}
+		if serviceCore.CheckGranted(ac, resource, action) {
+			granted = true
+		} else if ac.Deny {
+			// does the deny entry apply to this resource and action?
+			allow := &AccessControl{Resource: ac.Resource, Action: ac.Action}
+			if serviceCore.CheckGranted(allow, resource, action) {
+				return false
+			}
+		}
+	}
+	return granted
 }
 
 func (serviceCore *ServiceCore) CheckGranted(ac *AccessControl, resource string, action string) bool {
